@@ -149,4 +149,37 @@ def UKind.isInterrupt : UKind → Bool
 /-- how many runs the scenario has: the first one, and the resumed one if something interrupted -/
 def Shape.runs (sh : Shape) : List Bool := if sh.interrupts then [true, false] else [true]
 
+/-! ## a resume whose restore is refused
+
+    The resumed call loads the checkpoint and then fails while restoring it — here: the caller's
+    `WithStateModifier` returns an error for the path of the called graph (`top`) or of a nested
+    graph that interrupted (`sub key`).  `runner.run` returns from inside the restore, before the
+    place where the body calls `onGraphStart`: that is the `earlyErr` return path of the graph
+    unit (the deferred block fires the start callback, then the error callback).  Nothing below
+    that graph runs; for `sub` the other interrupted nodes of the top layer run again next to it,
+    the called graph fails with the node's error and `join` does not run. -/
+inductive ResumeFail where
+  | top
+  | sub (key : String)
+  deriving Repr, DecidableEq
+
+def failedResumeUnits (sh : Shape) : ResumeFail → List UnitSpec
+  | .top => [⟨[], false, rootInfo, .graph sh.stream .earlyErr, true⟩]
+  | .sub key =>
+    ⟨[], false, rootInfo, .graph sh.stream .lateErr, true⟩ ::
+    (sh.nodes.filter (·.interrupts)).flatMap fun n =>
+      match n with
+      | .sub k ns =>
+        if k == key then [⟨[k], false, subInfo [k], .graph sh.stream .earlyErr, true⟩]
+        else topUnits sh.stream false (.sub k ns)
+      | .inner m => topUnits sh.stream false (.inner m)
+
+/-- The callbacks of a graph execution that fails while a checkpoint is being restored.
+    `startedBefore`: the failing step lies after a place where the body calls `onGraphStart`.
+    `flagSet` (source fact `startSetsFlag`): every `onGraphStart` of the body is followed at once by
+    `haveOnStart = true`, so the deferred block (`if !haveOnStart { onGraphStart }`) knows. -/
+def restoreFailCalls (flagSet hasDefer deferStarts isStream startedBefore : Bool) : List Timing :=
+  let body : List Timing × Bool := if startedBefore then ([startT isStream], flagSet) else ([], false)
+  body.1 ++ (if hasDefer then (if !body.2 && deferStarts then [startT isStream] else []) ++ [Timing.error] else [])
+
 end EinoV.C10
